@@ -262,7 +262,7 @@ func trunc(s string, n int) string {
 
 func runSignalling(res *core.Result) {
 	if isCoordinator() {
-		if !core.Want("signalling") {
+		if !core.Want("signalling") && !core.Want("liveness") {
 			return
 		}
 		core.RunShards(res, core.NCPU(), []string{"signalling"}, func(shard int, out string) *core.Violation {
@@ -374,6 +374,9 @@ func runSignalling(res *core.Result) {
 
 	if o.Shard == o.Shards-1 && core.Want("signalling/delayed-delivery") {
 		res.AddSub(seqx.Explore(delayedConfig(), res))
+	}
+	if o.Shard == (o.Shards+1)/2 {
+		runLiveness(res) // last in this process: switches it to the scheduler
 	}
 }
 
